@@ -29,3 +29,10 @@ Fixpoint lookup_str (t : list (string * string)) (k : string) : option string :=
   | [] => None
   | (k', v) :: r => if String.eqb k k' then Some v else lookup_str r k
   end.
+
+(* ---- helpers of refurb/checks/common.py that the translated checks call (transliterated) ---- *)
+Definition is_true_literal (e : expr) : bool := match e with EName _ f => String.eqb f "builtins.True" | _ => false end.
+Definition is_false_literal (e : expr) : bool := match e with EName _ f => String.eqb f "builtins.False" | _ => false end.
+Definition is_bool_literal (e : expr) : bool := is_true_literal e || is_false_literal e.
+(* NameExpr.name, read after the caller has narrowed the node to a NameExpr *)
+Definition name_of (e : expr) : string := match e with EName n _ => n | _ => "" end.
